@@ -95,6 +95,14 @@ func genC14(r *RNG, idx int, tier string) *Scenario {
 	w.Cfg.Preco = true // the correction file exists in every case; the switch itself is overridden per line
 	w.Cfg.ResultExt = ""
 	sc := &Scenario{Kind: "batch", Worlds: []*World{w}, Params: map[string]string{}}
+	if idx%10 == 9 {
+		// stratum: project without config.yml, history of invocations through the shipped binary
+		sc.Params["stratum"] = "noconfig"
+		sc.Params["noconfigseed"] = fmt.Sprint(r.U64())
+		w.Cfg.Preco = false
+		sc.Sched = &SchedSpec{Sub: r.U64(), Concurrency: 1, Policy: "fifo", RecordP: 1}
+		return sc
+	}
 	// keys left out of the file: the documented default applies
 	var omit []string
 	for k := range c14Defaults {
@@ -188,6 +196,9 @@ func c14LineArgs(sc *Scenario, i int) []string {
 }
 
 func execC14(sc *Scenario, env *Env) *Result {
+	if sc.Params["stratum"] == "noconfig" {
+		return execC14NoConfig(sc, env)
+	}
 	t0 := time.Now()
 	res := &Result{Idx: sc.Idx, Status: "ok"}
 	w := sc.Worlds[0]
@@ -418,8 +429,8 @@ func init() {
 		Quick: 300, Thorough: 9000,
 		Chunk:      5,
 		NonTrivial: func(res *Result) bool { return res.Status != "invalid" && res.Status != "crash" && res.Stats["values.checked"] > 0 && res.Stats["reach.interleaved"] > 0 },
-		Rule:       "one batch scenario per evaluation: 4-18 lines of ONE generated project in one session (its config.yml is pooled and shared), each with a random subset of key=value overrides (numeric, text, on/off kinds, keys that do not exist) in varying argument positions, a random subset of keys left out of the file, executed by the real dispatcher under the seeded scheduler; reference model defaults (+) file (+) line; observables: state echoes bound through the output configuration (12 keys) and behaviour (file extension, style, interval, end date); permuted copies of a line must give byte-identical streams; non-trivial = values were compared and at least two runs were parked simultaneously",
-		ReachKeys:  []string{"values.checked", "source.default", "source.file", "source.line", "reach.interleaved", "reach.permuted-pairs"},
+		Rule:       "one batch scenario per evaluation: 4-18 lines of ONE generated project in one session (its config.yml is pooled and shared), each with a random subset of key=value overrides (numeric, text, on/off kinds, keys that do not exist) in varying argument positions, a random subset of keys left out of the file, executed by the real dispatcher under the seeded scheduler; reference model defaults (+) file (+) line; observables: state echoes bound through the output configuration (12 keys) and behaviour (file extension, style, interval, end date); permuted copies of a line must give byte-identical streams; a tenth of the scenarios instead run a project WITHOUT config.yml through the shipped binary (every line carries the whole configuration; one line leaves 1-3 keys to their documented defaults): that line alone on a fresh project copy, after an earlier invocation whose line carried the keys, and as second line of one session must give byte-identical result files; non-trivial = values were compared and at least two runs were parked simultaneously",
+		ReachKeys:  []string{"values.checked", "source.default", "source.file", "source.line", "reach.interleaved", "reach.permuted-pairs", "reach.project-without-config-file"},
 		Assumptions: []string{
 			"documented defaults = the values of the shipped default configuration for the eleven keys the check may leave out of the file",
 			"keys without an echo (on/off switches) are exercised as overrides but judged only through the byte-identity of permuted pairs",
